@@ -78,6 +78,7 @@ class Scheduler:
         self.observer = None      # callable(process, label) at every yield point
         self.hot_pids = set()
         self.stall_rate = 0       # percent, at hot points
+        self.stall_anywhere = 0   # per mille, at any yield point (a slow node is slow anywhere)
         self.stall_times = (1e-3, 5e-3, 30e-3)
 
     # -- per-process copies of process-global Python state ------------------------------
@@ -258,8 +259,10 @@ class Scheduler:
         if p.crashable and self.crashes_left > 0 and self.crash_rate and \
                 self.tape.chance("fault/crash", self.crash_rate):
             self.crash(p, label)
-        if hot and self.stall_rate and len(self.procs) > 1 and \
-                self.tape.chance("fault/stall", self.stall_rate):
+        if len(self.procs) > 1 and (
+                (hot and self.stall_rate and self.tape.chance("fault/stall", self.stall_rate))
+                or (self.stall_anywhere
+                    and self.tape.chance("fault/stall-anywhere", self.stall_anywhere, 1000))):
             # a slow or stalled node: descheduled for a while right where in-flight
             # state exists (page fault, CPU contention, SIGSTOP)
             p.state = "stalled"
